@@ -193,6 +193,30 @@ pub fn replay_print(rep: &mut Report, rec: &J) {
 		rep.mismatch("C13.layout", json!({"what": "inline_print differs from print_with(inline)", "vector": rec}));
 	}
 	// C04: the real output (whatever it is) re-parses to the value with the real strict parser
+	// Formatter flags (width, fill, alignment, precision, sign, alternate) given to `{}` must not reach INSIDE the document:
+	// the text is the specified one, or the specified one padded / truncated as a whole (what std types do) - never a
+	// text in which individual characters or numbers were padded or cut (another, possibly invalid, document)
+	if rep.counters["print_vectors"] % 3 == 0 {
+		let p = v.print_with(o.clone());
+		let variants: [(&str, String); 7] = [("{:3}", format!("{:3}", p)), ("{:>9}", format!("{:>9}", p)), ("{:.1}", format!("{:.1}", p)), ("{:08}", format!("{:08}", p)), ("{:#}", format!("{:#}", p)),
+			("{:+}", format!("{:+}", p)), ("{:*^5.3}", format!("{:*^5.3}", p))];
+		for (spec, t) in variants {
+			let whole = |fill: char| t.trim_start_matches(fill) == exp || t.trim_end_matches(fill) == exp || t.trim_matches(fill) == exp;
+			let ok = t == exp || whole(' ') || whole('0') || whole('*') || (spec.contains('.') && t.chars().count() <= 5 && exp.starts_with(t.trim_matches('*')));
+			if !ok {
+				let d = json!({"what": "formatter flags change the document itself (characters / numbers padded or cut individually)", "format": spec, "vector": rec, "observed": t, "expected_text": exp});
+				rep.mismatch("C04.flags", d.clone());
+				rep.mismatch(if is_compact { "C08.flags" } else { "C13.flags" }, d);
+				break;
+			}
+		}
+		if is_compact {
+			let t = format!("{:4}", v);
+			if t != exp && t.trim_end() != exp && t.trim_start() != exp {
+				rep.mismatch("C08.flags", json!({"what": "Display of a value under a width flag is not its compact text", "format": "{:4}", "vector": rec, "observed": t}));
+			}
+		}
+	}
 	// the same layout through the generic / contextual printing layer a user type goes through
 	if let Value::Array(items) = &v {
 		match guarded(|| ctxprint::print_items(items, o.clone())) {
